@@ -99,6 +99,7 @@ struct Global {
   std::vector<std::string> lines;  // event lines of this execution
   std::vector<std::pair<std::string, std::string>> finals;
   bool time_choice = false;
+  bool anon_yield = false;
   bool time_announced = false;
   std::uint64_t last_time = 0;
   int time_budget = 1;
@@ -473,7 +474,13 @@ bool HookInject() {
     return true;
   }
   auto* st = Cur();
-  if (st == nullptr || !st->tracked || st->ambient != 0 || !st->has_op) {
+  if (st == nullptr || !st->tracked || st->ambient != 0) {
+    return true;
+  }
+  if (!st->has_op) {
+    if (g.anon_yield) {
+      yaclib::fault::Scheduler::RescheduleCurrent();  // an injection point without descriptor: just a scheduling point
+    }
     return true;
   }
   if (st->phase == 0) {
@@ -753,6 +760,7 @@ ExecResult RunExecution(const Scenario& sc, const std::map<std::string, std::str
   g.finals.clear();
   g.tail_budget = g.tailsplit;
   g.time_choice = false;
+  g.anon_yield = false;
   g.time_announced = false;
   g.last_time = 0;
   g.time_budget = 1;
@@ -814,7 +822,7 @@ ExecResult RunExecution(const Scenario& sc, const std::map<std::string, std::str
     root->detach();
     delete root;
     for (auto& t : *threads) {
-      if (t && t->joinable()) {
+      if (t && t->get_id() != 0) {  // (a fiber thread that was joined already has no id)
         t->detach();
       }
     }
@@ -976,7 +984,7 @@ void Ctx::Spawn(const std::string& name, ProcFn fn) {
 
 void Ctx::JoinAll() {
   for (auto& t : *g_threads) {
-    if (t && t->joinable()) {
+    if (t && t->get_id() != 0) {
       t->join();
     }
   }
@@ -995,6 +1003,10 @@ void Ctx::Final(const std::string& key, long value) {
 
 void Ctx::EnableTimeChoice() {
   G().time_choice = true;
+}
+
+void Ctx::EnableAnonYield() {
+  G().anon_yield = true;
 }
 
 void Ctx::EnableWeakFail(int budget) {
